@@ -12,6 +12,8 @@ verdict is stable under them). Each transform was validated on the repository's 
   T5  `x = A if c else B` -> if/else statement;  `return A if c else B` -> if c: return A / return B
   T6  `x = [E for t in IT if C]` (list/set/dict comprehension, one generator) -> explicit loop
   T7  `self._engine` / `self._docmodel` aliased to a local at the top of each method reading it
+  T8  `self.m(a, b)` -> `self.m(p=a, q=b)` for undecorated methods defined exactly once in the code
+      base with plain positional parameters
 """
 import ast
 import copy
@@ -272,11 +274,60 @@ class T7(ast.NodeTransformer):
     return f
 
 
+_METHOD_INDEX = {}
+
+
+def _method_index(root):
+  """{method name: [(class name, [positional parameter names after self], decorated)]} over every
+  non-test module under root."""
+  if root in _METHOD_INDEX:
+    return _METHOD_INDEX[root]
+  idx = {}
+  for dp, dn, fn in os.walk(root):
+    for f in fn:
+      if not f.endswith(".py") or f.startswith("test_"):
+        continue
+      try:
+        tree = ast.parse(open(os.path.join(dp, f)).read())
+      except SyntaxError:
+        continue
+      for c in ast.walk(tree):
+        if isinstance(c, ast.ClassDef):
+          for m in c.body:
+            if isinstance(m, ast.FunctionDef):
+              a = m.args
+              plain = not (a.vararg or a.kwarg or a.posonlyargs)
+              names = [x.arg for x in a.args][1:] if plain and a.args else None
+              idx.setdefault(m.name, []).append((c.name, names, bool(m.decorator_list)))
+  _METHOD_INDEX[root] = idx
+  return idx
+
+
+class T8(ast.NodeTransformer):
+  """`self.m(a, b)` -> `self.m(p=a, q=b)` for methods defined exactly once in the code base,
+  undecorated, with plain positional parameters (so the binding cannot differ)."""
+  root = None
+  def visit_Call(self, n):
+    self.generic_visit(n)
+    f = n.func
+    if isinstance(f, ast.Attribute) and isinstance(f.value, ast.Name) and f.value.id == "self" and \
+        n.args and not any(isinstance(a, ast.Starred) for a in n.args):
+      ent = _method_index(self.root).get(f.attr, [])
+      if len(ent) == 1 and ent[0][1] is not None and not ent[0][2] and \
+          len(n.args) <= len(ent[0][1]) and not f.attr.startswith("__"):
+        names = ent[0][1]
+        given = {k.arg for k in n.keywords}
+        if not (set(names[:len(n.args)]) & given) and None not in given:
+          n.keywords = [ast.keyword(arg=names[i], value=a) for i, a in enumerate(n.args)] + n.keywords
+          n.args = []
+    return n
+
+
 class T0(ast.NodeTransformer):
   pass
 
 
-TRANSFORMS = {"T0": T0, "T1": T1, "T2": T2, "T3": T3, "T4": T4, "T5": T5, "T6": T6, "T7": T7}
+TRANSFORMS = {"T0": T0, "T1": T1, "T2": T2, "T3": T3, "T4": T4, "T5": T5, "T6": T6, "T7": T7, "T8": T8}
 
 
 def target_files(root, sub):
@@ -297,7 +348,11 @@ def target_files(root, sub):
 def rewrite(path, tname):
   src = open(path).read()
   tree = ast.parse(src)
-  new = TRANSFORMS[tname]().visit(tree)
+  tr = TRANSFORMS[tname]()
+  if hasattr(tr, "root"):
+    p = os.path.abspath(path)
+    tr.root = p[:p.index("sandbox/grist") + len("sandbox/grist")] if "sandbox/grist" in p else os.path.dirname(p)
+  new = tr.visit(tree)
   ast.fix_missing_locations(new)
   out = ast.unparse(new) + "\n"
   compile(out, path, "exec")
